@@ -1,4 +1,5 @@
 """Parser for contracts/<prop>/<unit>.spec  (plain text; see DESIGN.md section 2.2)."""
+import os
 import re
 
 
@@ -22,6 +23,8 @@ class FnSpec:
         self.replace = None         # None = all contracted callees
         self.inline = []
         self.line = 0
+        self.slice = None
+        self.exports = []
 
     @property
     def contracted(self):
@@ -78,7 +81,15 @@ def _opts(words):
 def parse(path):
     u = Unit()
     u.path = path
-    lines = open(path).read().split('\n')
+    lines = []
+    for ln in open(path).read().split('\n'):
+        if ln.startswith('@import '):
+            ip = os.path.join(os.path.dirname(os.path.abspath(path)), ln.split(None, 1)[1].strip())
+            if not os.path.exists(ip):
+                ip = os.path.join(os.path.dirname(os.path.dirname(os.path.abspath(__file__))), 'contracts', ln.split(None, 1)[1].strip())
+            lines += open(ip).read().split('\n')
+        else:
+            lines.append(ln)
     i = 0
     cur = None            # current FnSpec
     raw = None            # (target kind, obj) collecting raw text
@@ -113,7 +124,7 @@ def parse(path):
             elif d == 'tu':
                 u.tu = words[1]
             elif d == 'filter':
-                u.filter = ln[1:].split(None, 1)[1].strip()
+                u.filter = (u.filter or []) + [ln[1:].split(None, 1)[1].strip()]
             elif d == 'mode':
                 u.mode = words[1]
             elif d == 'include':
@@ -172,6 +183,12 @@ def parse(path):
             if not cur.opts.get('as'):
                 cur.cname = cur.qual
             cur.qual = val
+            lastkey = None
+        elif key == 'slice':
+            cur.slice = val
+            lastkey = None
+        elif key == 'export':
+            cur.exports = [x.strip() for x in val.split(',') if x.strip()]
             lastkey = None
         elif key == 'sig':
             cur.sig = val
